@@ -284,7 +284,7 @@ func c04Child() {
 		only = os.Args[3]
 	}
 	env := c04NewEnv()
-	big := map[string]bool{"open-paren": true, "paren-balanced": true, "minus": true, "dot-chain": true, "binary-chain": true, "invalid-utf8": true}
+	big := map[string]bool{"jump-too-far": true, "open-paren": true, "paren-balanced": true, "minus": true, "dot-chain": true, "binary-chain": true, "invalid-utf8": true}
 	// a wrapped-around size must fail as an allocation error at once, not fill the machine's memory
 	syscall.Setrlimit(syscall.RLIMIT_AS, &syscall.Rlimit{Cur: 12 << 30, Max: 12 << 30})
 	bombs := c04Bombs(limit)
@@ -325,7 +325,7 @@ func c04Child() {
 			}
 			return t, err
 		}))
-		if full || !big[b.Name] {
+		if full || !big[b.Name] || b.Name == "jump-too-far" {
 			emit("expr.Eval", c04Call(func() (interface{}, error) { return expr.Eval(src, env) }))
 		}
 		optSets := []c04Opts{{Env: 1}, {Env: 2, Undef: true, NoOpt: true}, {Env: 0}, {Env: 1, Patch: 3, CE: 1, Op: 1}}
